@@ -33,7 +33,10 @@ RULE = (
     "in ~15 % of runs the ops arrive as multi-op segments through BaseProtocol.data_received() and a "
     "parser that parks the rest of a segment on pause and replays it inside resume_reading(); in ~12 % of runs "
     "unread ops follow reads more often and push back the tail / the front / a rewritten copy of the last read, "
-    "earlier stream bytes or foreign bytes (1..2*limit+1 of them). "
+    "earlier stream bytes or foreign bytes (1..2*limit+1 of them); in ~10 % of runs (chunked bodies) the producer also "
+    "delivers bursts of 2..40 complete one-byte HTTP chunks in one step (a parser that stops at a pause request and "
+    "delivers the rest after the resume) and the consumer asks for more than the limit at once (read(), read(n)/"
+    "readexactly(n)/iter_chunked(n) with n = 80..2^20) before or while the chunk ends pile up. "
     "Non-trivial: the reader blocked at least once AND the protocol was paused at least once; "
     "distinct = distinct interleaving signature (sequence of executed handle kinds + op kinds)."
 )
@@ -45,6 +48,11 @@ COMPONENTS = {
 ASSUMPTIONS = [
     "a transport delivers no data while reading is paused (asyncio selector transport contract)",
     "high/low water marks are those reported by StreamReader.get_read_buffer_limits()",
+    "the chunk-count high-water mark is max(4, limit // 16) of the limit the reader was constructed with; asking for a "
+    "larger read size raises the byte marks only (set_read_chunk_size docstring: 'raise buffer limits to match the "
+    "consumer's chunk size'), never the number of undelivered chunk ends that may pile up",
+    "undelivered chunk ends are counted from below: ends strictly beyond every position the consumer can have reached "
+    "(the returned bytes, or everything fed when the reader was last seen blocked on the empty buffer)",
     "one consumer at a time (documented: concurrent reads raise RuntimeError)",
     "parked runs: a parser honours a pause request between two ops of a segment, keeps the rest and continues "
     "when data_received(b'') is called from BaseProtocol.resume_reading() (what HttpPayloadParser does with _chunk_tail)",
@@ -60,6 +68,8 @@ ACC_OPS = ("read_all", "readexactly", "readline", "readuntil")
 # roll-back), its first n bytes, its last n bytes rewritten (a normalised copy), n stream bytes
 # returned before the last read, or n bytes that never were in the stream
 UNREAD_MODES = ("tail", "front", "front", "altered", "earlier", "foreign")
+# read sizes above every small limit of the generator (and above 16 times its chunk-count mark)
+BIG_READS = (80, 100, 129, 500, 4096, 2 ** 20)
 
 
 _ALPHA = b"abcdefghijklmnopqrstuvwxyz0123456789:x" + b"\n" * 5 + b"\r\n"
@@ -157,7 +167,38 @@ def gen(rng, tier, index):
                 new.append([rng.choice([0, 0, 0, 1]), "unread", rng.choice([1, 1, 2, 3, 5, limit, 2 * limit + 1]),
                             rng.choice(UNREAD_MODES)])
         scn["consumer"] = new
+    # drawn last again.  Many tiny chunks: a "burst" op is k complete one-byte HTTP chunks handed
+    # over in one producer step (one data_received() carrying k chunks), placed between two chunks
+    # of the program; and the consumer asks for more than the limit at once (read() or a large n),
+    # which raises the BYTE marks - the number of undelivered chunk ends that makes the reader
+    # pause stays what the constructor limit says.
+    if chunked and rng.random() < 0.2:
+        scn["burst"] = True
+        spots = [i for i, o in enumerate(prod) if o[1] in ("begin", "eof", "exc")]
+        if prod[-1][1] == "end":
+            spots.append(len(prod))
+        for i in sorted(rng.sample(spots, min(len(spots), rng.choice([1, 1, 2]))), reverse=True):
+            k = rng.choice([2, 4, 5, 6, 7, 9, 13, 20, 40])
+            op = [rng.choice([0, 0, 1, 2, 5]), "burst", k]
+            if scn.get("parked"):
+                op.append(1 if i and rng.random() < 0.5 else 0)
+            prod.insert(i, op)
+            scn["total"] += k
+        cons = scn["consumer"]
+        for o in cons:
+            if o[1] in ("read", "iter_chunked") and rng.random() < 0.5:
+                o[2] = rng.choice(BIG_READS)
+            elif o[1] == "readexactly" and rng.random() < 0.3:
+                o[2] = rng.choice(BIG_READS[:3])
+        if rng.random() < 0.7:
+            k = rng.choice(["read_all", "read_all", "read", "read", "iter_chunked", "readexactly"])
+            arg = 0 if k == "read_all" else rng.choice(BIG_READS[:3] if k == "readexactly" else BIG_READS)
+            cons.insert(rng.randint(0, min(3, len(cons))), [rng.choice([0, 0, 1, 2]), k, arg])
     return scn
+
+
+def _total(prod):
+    return sum(o[2] for o in prod if o[1] in ("feed", "burst"))
 
 
 def shrink(scn):
@@ -175,7 +216,7 @@ def shrink(scn):
                 cand = dict(scn)
                 cand[key] = lst[:i] + lst[i + size:]
                 if key == "producer":
-                    cand["total"] = sum(o[2] for o in cand[key] if o[1] == "feed")
+                    cand["total"] = _total(cand[key])
                 yield cand
             if n // 2 <= 1:
                 break
@@ -201,6 +242,14 @@ def shrink(scn):
                 cand["consumer"] = [list(o) for o in scn["consumer"]]
                 cand["consumer"][i][3] = "front"
                 yield cand
+    for i, op in enumerate(scn["producer"]):
+        if op[1] == "burst" and op[2] > 1:
+            # one chunk fewer (the halving below is too coarse around a threshold)
+            cand = dict(scn)
+            cand["producer"] = [list(o) for o in scn["producer"]]
+            cand["producer"][i][2] = op[2] - 1
+            cand["total"] = _total(cand["producer"])
+            yield cand
     for key in ("producer", "consumer"):
         for i, op in enumerate(scn[key]):
             if op[0] > 0:
@@ -213,7 +262,7 @@ def shrink(scn):
                 cand[key] = [list(o) for o in scn[key]]
                 cand[key][i][2] = op[2] // 2
                 if key == "producer":
-                    cand["total"] = sum(o[2] for o in cand[key] if o[1] == "feed")
+                    cand["total"] = _total(cand[key])
                 yield cand
 
 
@@ -377,25 +426,30 @@ def run(scn, ch, log=False):
         tr = _Transport()
         parked_mode = bool(scn.get("parked"))
         if parked_mode:
-            parser = _ParkingParser(lambda o: apply_op(o[1], o[2]))
+            parser = pstub = _ParkingParser(lambda o: apply_op(o[1], o[2]))
             proto = _segment_protocol()(loop, parser=parser)
         else:
             parser = None
-            proto = BaseProtocol(loop, parser=_Parser())
+            pstub = _Parser()
+            proto = BaseProtocol(loop, parser=pstub)
         proto.connection_made(tr)
         limit = scn["limit"]
         stream = StreamReader(proto, limit, loop=loop)
+        # undelivered chunk ends that may pile up before the reader must pause: a function of the
+        # limit the reader was built with (never read back from the stream)
+        high_chunks = max(4, limit // 16)
         content = _CONTENT if scn["total"] + 8 <= len(_CONTENT) else stream_bytes(scn["total"] + 8)
         m = {
             "fed": 0, "consumed": 0, "eof": False, "exc": False, "ends": [], "lossy": False,
             "blocked": 0, "cur": None, "chunk_groups": [], "group": bytearray(), "crossed": False,
             "in_op": False, "last": b"", "done_ops": 0, "cur_op": "", "cands": None,
-            "unread_over": False, "push": b"", "blind": False,
+            "unread_over": False, "push": b"", "blind": False, "drained": 0,
         }
         probes = {"blocked": 0, "paused": 0, "cancel_fired": 0, "lossy": 0, "linetoolong": 0,
                   "chunk_true": 0, "unread": 0, "exc_raised": 0, "iter_ended": 0, "iter_boundary_marker": 0, "iter_chunks_from_boundary": 0,
                   "segments": 0, "parked": 0, "replayed_in_resume": 0, "repaused_in_resume": 0, "blind": 0,
-                  "unread_inside_block": 0}
+                  "unread_inside_block": 0, "bursts": 0, "burst_cut_by_pause": 0, "chunk_mark_judged": 0,
+                  "chunk_mark_over": 0, "chunk_mark_over_raised_read": 0, "big_read": 0}
         for _mode in UNREAD_MODES:
             probes["unread_" + _mode] = 0
         prod = [list(o) for o in scn["producer"]]
@@ -418,6 +472,22 @@ def run(scn, ch, log=False):
                     if not m["ends"] or m["ends"][-1] != m["fed"]:
                         if m["fed"] > 0:
                             m["ends"].append(m["fed"])
+                elif op == "burst":
+                    # k complete one-byte chunks out of one network read; like HttpPayloadParser the
+                    # feeder stops when the stream asks for a pause and keeps the rest for later
+                    probes["bursts"] += 1
+                    for i in range(arg):
+                        p0 = pstub.pauses
+                        apply_op("begin", 0)
+                        apply_op("feed", 1)
+                        apply_op("end", 0)
+                        if i + 1 < arg and pstub.pauses > p0:
+                            probes["burst_cut_by_pause"] += 1
+                            if parked_mode:
+                                parser.queue.insert(0, [0, "burst", arg - i - 1, 1])
+                            else:
+                                prod.insert(state["pi"], [0, "burst", arg - i - 1])
+                            break
                 elif op == "eof":
                     m["eof"] = True
                     stream.feed_eof()
@@ -434,6 +504,7 @@ def run(scn, ch, log=False):
             if tr.paused and not m["eof"]:
                 state["waiting"] = True
                 return
+            note_drained()
             if parked_mode:
                 # one transport read: the op at pi and every following op glued to it
                 seg = [prod[state["pi"]]]
@@ -464,6 +535,16 @@ def run(scn, ch, log=False):
         tr.on_resume = on_resume
 
         # ---------------- flow-control oracle ------------------------------
+        def note_drained():
+            """After every loop step and before a network step: a read blocked on its (pending) waiter
+            has emptied the buffer, so everything fed so far has left it (also what an accumulating
+            read still holds, and also when the read is cancelled before it runs again)."""
+            t = m["cur"]
+            if t is not None and not t.done() and m["in_op"]:
+                fw = t._fut_waiter
+                if fw is not None and not fw.done() and m["fed"] > m["drained"]:
+                    m["drained"] = m["fed"]
+
         def check_flow(who):
             if viols or m["exc"]:
                 return
@@ -474,6 +555,24 @@ def run(scn, ch, log=False):
                 probes["paused"] += 1
             if m["lossy"]:
                 return  # consumed position unknown after a lossy cancel
+            # chunk-count mark: chunk ends strictly beyond every position the consumer can have
+            # reached are still queued in the reader (a lower bound of what it holds); more of
+            # them than the mark of the constructor limit => reading must be paused, whatever
+            # read size the consumer has asked for
+            if not m["push"] and not m["blind"] and not m["eof"]:
+                reached = max(m["consumed"], m["drained"])
+                queued = sum(1 for e in m["ends"] if e > reached)
+                probes["chunk_mark_judged"] += 1
+                if queued > high_chunks:
+                    probes["chunk_mark_over"] += 1
+                    if low > limit:
+                        probes["chunk_mark_over_raised_read"] += 1
+                    if not tr.paused:
+                        violate("pause_on_high_water", f"chunk_ends_not_paused_after_{who.split('_')[0]}",
+                                f"{queued} undelivered chunk ends queued (ends beyond position {reached}; fed={m['fed']}) > "
+                                f"chunk-count high-water mark {high_chunks} = max(4, limit // 16) of limit={limit}, "
+                                f"but reading is not paused (after {who} step; byte marks now low={low} high={high}; "
+                                f"read in flight: {m['cur_op'] if m['in_op'] else None})")
             if m["in_op"] and (m["cur_op"] in ACC_OPS or m["cur_op"].startswith("iter")):
                 return  # an accumulating read holds bytes it has not returned yet
             # judged when data arrives: unread_data() (deprecated, consumer side) may
@@ -541,6 +640,7 @@ def run(scn, ch, log=False):
                     return
                 m["push"] = push[k:]
                 m["consumed"] += rest
+                m["drained"] = max(m["drained"], m["consumed"])
                 m["last"] = data
                 return
             exp = content[m["consumed"]: m["consumed"] + len(data)]
@@ -567,6 +667,7 @@ def run(scn, ch, log=False):
                 if len(m["cands"]) == 1:
                     m["lossy"] = False
                     m["cands"] = None
+                    m["drained"] = max(m["drained"], m["consumed"])
                 return
             if m["consumed"] + len(data) > m["fed"] or exp != data:
                 violate("exact_ordered_delivery", f"mismatch_{op}",
@@ -574,11 +675,14 @@ def run(scn, ch, log=False):
                         f"{m['consumed']} holds {exp[:40]!r}; fed={m['fed']}")
                 return
             m["consumed"] += len(data)
+            m["drained"] = max(m["drained"], m["consumed"])
             m["last"] = data
             m["lossy"] = False
 
         async def one(op, arg, mode=None):
             low0 = stream.get_read_buffer_limits()[0]
+            if op in ("read", "readexactly", "iter_chunked") and arg > limit or op == "read_all":
+                probes["big_read"] += 1
             if op == "read":
                 d = await stream.read(arg)
                 if len(d) > arg:
@@ -650,6 +754,8 @@ def run(scn, ch, log=False):
                     stream.unread_data(d)
                     m["unread_over"] = True
                     if mode is None and not m["push"]:
+                        # the position reached stays reached: chunk ends passed are not queued again
+                        m["drained"] = max(m["drained"], m["consumed"])
                         m["consumed"] -= len(d)
                     else:
                         m["push"] = d + m["push"]
@@ -795,6 +901,7 @@ def run(scn, ch, log=False):
             t = m["cur"]
             if t is not None and not t.done() and m["in_op"] and t._fut_waiter is not None:
                 m["blocked"] += 1
+            note_drained()
 
         loop.step_hooks.append(count_block)
         loop.sim_call_later(prod[0][0] * 0.001 if prod else 0, producer_step)
@@ -838,5 +945,5 @@ LEVEL_TEXT = (
 LEVEL_NOTE = (
     "Trusted: the reference model in props/c08.py, asyncio's task/future semantics, and the assumption that a paused "
     "transport delivers nothing; in parked runs also the segment-parking parser stub. "
-    "Bounds: <=14 producer ops, <=16 consumer ops, limits 1..64 and 65536."
+    "Bounds: <=14 producer ops (+ <=2 bursts of <=40 one-byte chunks), <=17 consumer ops, limits 1..64 and 65536."
 )
